@@ -21,6 +21,7 @@ class Cfg(object):
         self.reads = False
         self.faults = True       # failing leaves, raise statements
         self.lazy_raise = True
+        self.shared_lazy = 0        # weight of ["slazy", mode, k] leaves: the same lazy Future object in several places
         self.bad = True
         self.unset = True
         self.flush_faults = ()   # subset of ("raise", "hard")
@@ -112,6 +113,8 @@ def plain_leaf(s):
     opts = ["item"] * 6 + ["const", "none", "nonef", "lazyok"]
     if cfg.ditem:
         opts += ["ditem"] * 2
+    if cfg.shared_lazy:
+        opts += ["slazy"] * cfg.shared_lazy
     if cfg.faults:
         opts += ["errfut"] * cfg.fault_leaf_w
         if cfg.lazy_raise:
@@ -129,6 +132,9 @@ def plain_leaf(s):
         return ["nonef"]
     if k == "lazyok":
         return ["lazy", "ok", s.uid()]
+    if k == "slazy":
+        n = s.int(0, 2)
+        return ["slazy", "raise" if n == 2 and cfg.faults and cfg.lazy_raise else "ok", n]
     if k == "ditem":
         return ["ditem", "dbg", s.int(0, 3), s.uid()]
     if k == "errfut":
